@@ -42,50 +42,120 @@ func funcObj(fn *ssa.Function) *types.Func {
 	return nil
 }
 
+// excursion: one Dec→Int conversion site. The arithmetic is described in every calling context in which the site is
+// reached from the module's API (so that operands handed in through helper parameters are what the callers pass) and,
+// for code no API function reaches, on its own.
 type excursion struct {
 	fn   *ssa.Function
 	in   *ssa.Call
+	t    *Term // first context
+	dir  Dir
+	skel string
+	role string
+	alts []exCtx
+}
+
+type exCtx struct {
+	root *ssa.Function // the API function (or the function itself) from which the site was reached
 	t    *Term
 	dir  Dir
 	skel string
 	role string
 }
 
-// moneyExcursions: every Dec→Int conversion in the non-generated, non-simulation repository code.
-func moneyExcursions(w *World, tm *Terms) []excursion {
-	var out []excursion
+func excursionRole(skel string) string {
+	switch {
+	case strings.Contains(skel, "WEIGHT"):
+		return "vest-share"
+	case strings.Contains(skel, "Quo"):
+		return "quantity" // paying → selling: what a bidder is given
+	case strings.Contains(skel, "Mul"):
+		return "payment" // selling → paying: what a bidder is charged
+	}
+	return "other"
+}
+
+func isDecToInt(in ssa.Instruction) (*ssa.Call, bool) {
+	c, ok := in.(*ssa.Call)
+	if !ok {
+		return nil, false
+	}
+	switch callKey(&c.Call) {
+	case mathPath + ".LegacyDec.TruncateInt", mathPath + ".LegacyDec.RoundInt", mathPath + ".LegacyDec.TruncateInt64", mathPath + ".LegacyDec.RoundInt64":
+		return c, true
+	}
+	return nil, false
+}
+
+// bidConverters: the methods of types.Bid with the signature (denom string) math.Int.
+func bidConverters(w *World) []*ssa.Function {
+	bidT := w.lookupNamed(typesPath, "Bid")
+	var out []*ssa.Function
 	for _, fn := range w.Funcs {
-		p := pkgOf(fn)
-		if p == nil || (p.Path() != typesPath && p.Path() != keeperPath) || w.isGenerated(fn) {
+		obj := funcObj(fn)
+		if obj == nil || recvNamed(obj) != bidT || fn.Parent() != nil {
 			continue
 		}
-		fr := tm.Root(fn)
-		for _, b := range fn.Blocks {
-			for _, in := range b.Instrs {
-				c, ok := in.(*ssa.Call)
-				if !ok {
-					continue
-				}
-				switch callKey(&c.Call) {
-				case mathPath + ".LegacyDec.TruncateInt", mathPath + ".LegacyDec.RoundInt", mathPath + ".LegacyDec.TruncateInt64", mathPath + ".LegacyDec.RoundInt64":
-				default:
-					continue
-				}
-				t := tm.Of(fr, c)
-				e := excursion{fn: fn, in: c, t: t, dir: dirOf(t), skel: skeleton(t)}
-				switch {
-				case strings.Contains(e.skel, "WEIGHT"):
-					e.role = "vest-share"
-				case strings.Contains(e.skel, "Quo"):
-					e.role = "quantity" // paying → selling: what a bidder is given
-				case strings.Contains(e.skel, "Mul"):
-					e.role = "payment" // selling → paying: what a bidder is charged
-				default:
-					e.role = "other"
-				}
-				out = append(out, e)
+		sig := fn.Signature
+		if sig.Params().Len() == 1 && sig.Results().Len() == 1 && isNamed(sig.Results().At(0).Type(), mathPath, "Int") {
+			if b, ok := sig.Params().At(0).Type().Underlying().(*types.Basic); ok && b.Kind() == types.String {
+				out = append(out, fn)
 			}
 		}
+	}
+	return out
+}
+
+// moneyExcursions: every Dec→Int conversion in the non-generated, non-simulation repository code.
+func moneyExcursions(w *World, tm *Terms) []excursion {
+	byIn := map[*ssa.Call]*excursion{}
+	var order []*ssa.Call
+	add := func(root *ssa.Function, fr *Frame, c *ssa.Call) {
+		t := tm.Of(fr, c)
+		x := exCtx{root: root, t: t, dir: dirOf(t), skel: skeleton(t)}
+		x.role = excursionRole(x.skel)
+		e := byIn[c]
+		if e == nil {
+			e = &excursion{fn: c.Parent(), in: c, t: t, dir: x.dir, skel: x.skel, role: x.role}
+			byIn[c] = e
+			order = append(order, c)
+		}
+		for _, y := range e.alts {
+			if y.root == root && y.t.Key() == t.Key() {
+				return
+			}
+		}
+		e.alts = append(e.alts, x)
+	}
+	inScope := func(fn *ssa.Function) bool {
+		p := pkgOf(fn)
+		return p != nil && (p.Path() == typesPath || p.Path() == keeperPath) && !w.isGenerated(fn)
+	}
+	roots := append(w.apiRoots(), bidConverters(w)...)
+	for _, root := range roots {
+		root := root
+		tm.walkContexts([]*ssa.Function{root}, func(fr *Frame, in ssa.Instruction) {
+			if c, ok := isDecToInt(in); ok && inScope(fr.Fn) {
+				add(root, fr, c)
+			}
+		})
+	}
+	// code not reached from the API is described on its own
+	for _, fn := range w.Funcs {
+		if !inScope(fn) {
+			continue
+		}
+		for _, b := range fn.Blocks {
+			for _, in := range b.Instrs {
+				if c, ok := isDecToInt(in); ok && byIn[c] == nil {
+					add(fn, tm.Root(fn), c)
+				}
+			}
+		}
+	}
+	var out []excursion
+	for _, c := range order {
+		out = append(out, *byIn[c])
 	}
 	sort.Slice(out, func(i, j int) bool {
 		if out[i].fn.String() != out[j].fn.String() {
@@ -94,6 +164,23 @@ func moneyExcursions(w *World, tm *Terms) []excursion {
 		return out[i].in.Pos() < out[j].in.Pos()
 	})
 	return out
+}
+
+// convPayingSkeleton: the operator skeleton of the bid type's own to-paying conversion — the payment excursion reached
+// from one of the Bid converter methods (wherever the arithmetic itself is written).
+func convPayingSkeleton(w *World, exs []excursion) string {
+	conv := map[*ssa.Function]bool{}
+	for _, f := range bidConverters(w) {
+		conv[f] = true
+	}
+	for _, e := range exs {
+		for _, x := range e.alts {
+			if conv[x.root] && x.role == "payment" {
+				return x.skel
+			}
+		}
+	}
+	return ""
 }
 
 func checkC04(w *World, r *Report) {
@@ -116,56 +203,87 @@ func checkC04(w *World, r *Report) {
 		seenN[base]++
 		construct := fmt.Sprintf("%s#%d", base, seenN[base])
 		what := fmt.Sprintf("%s excursion %s in %s rounds in the required direction", e.role, e.skel, fnName(e.fn))
-		ok, why := true, ""
-		switch e.role {
-		case "quantity", "vest-share":
-			ok = e.dir == DFloor || e.dir == DExact
-			why = fmt.Sprintf("direction is %s: a bidder can be given more selling coin than the paying amount buys (or instalments can exceed the proceeds)", e.dir)
-		case "payment":
-			ok = e.dir == DCeil || e.dir == DCeilDiff || e.dir == DExact
-			why = fmt.Sprintf("direction is %s: a bidder can be charged/reserved less than price × quantity, so the escrow cannot cover the payment and rounding no longer favours the auctioneer", e.dir)
-		default:
-			ok = e.dir != DTop && e.dir != DNearest
-			why = fmt.Sprintf("unclassified Dec→Int conversion with direction %s", e.dir)
+		var bad []string
+		for _, x := range e.alts {
+			switch x.role {
+			case "quantity", "vest-share":
+				if !(x.dir == DFloor || x.dir == DExact) {
+					bad = append(bad, fmt.Sprintf("%s: direction is %s: a bidder can be given more selling coin than the paying amount buys (or instalments can exceed the proceeds)", x.skel, x.dir))
+				}
+			case "payment":
+				if !(x.dir == DCeil || x.dir == DCeilDiff || x.dir == DExact) {
+					bad = append(bad, fmt.Sprintf("%s: direction is %s: a bidder can be charged/reserved less than price × quantity, so the escrow cannot cover the payment and rounding no longer favours the auctioneer", x.skel, x.dir))
+				}
+			default:
+				if x.dir == DTop || x.dir == DNearest {
+					bad = append(bad, fmt.Sprintf("%s: unclassified Dec→Int conversion with direction %s", x.skel, x.dir))
+				}
+			}
 		}
-		r.Check(ok, "RD-DIR", construct, w.instrPos(e.in), what+" ["+e.dir.String()+"]", why)
+		r.Check(len(bad) == 0, "RD-DIR", construct, w.instrPos(e.in), what+" ["+e.dir.String()+"]", strings.Join(dedupe(bad), "; "))
 	}
-	// the conversion methods of the Bid type (found by signature: method on Bid taking a denom, returning Int)
 	bidT := w.lookupNamed(typesPath, "Bid")
-	for _, e := range exs {
-		if obj := funcObj(e.fn); obj != nil && recvNamed(obj) == bidT && e.role == "payment" {
-			convPaying = e.skel
-		}
-	}
+	convPaying = convPayingSkeleton(w, exs)
 	if convPaying == "" {
 		r.Fail("RD-SIB", "converter", typesPath, "the bid type has a to-paying conversion (anchor)", "no payment excursion declared on types.Bid")
 	}
 	// ---------------------------------------------------------------- RD-SIB
 	strip := func(s string) string { return strings.TrimSuffix(strings.TrimPrefix(s, "TruncateInt("), ")") }
 	ms := w.msgServerMethods()
-	modTree := w.reachableFrom(ms["ModifyBid"])
-	for _, e := range exs {
-		if e.role != "payment" || !modTree[e.fn] || recvNamed(funcObj(e.fn)) == bidT {
-			continue
-		}
-		// TruncateInt(Sub(A,B)): both ceilings must equal the converter's ceiling skeleton
-		construct := fnName(e.fn) + ":difference-of-ceilings"
-		inner := e.t.Args[0]
-		ok, why := inner.Op == "call" && mathName(inner) == "LegacyDec.Sub" && len(inner.Args) == 2, "the charged amount is not a difference of two conversions: "+e.skel
-		if ok {
-			a, b := skeleton(inner.Args[0]), skeleton(inner.Args[1])
-			want := strip(convPaying)
-			if a != want || b != want {
-				ok, why = false, fmt.Sprintf("new term %s / old term %s differ from the reservation conversion %s: the sum of charged differences no longer equals the ceiling of the final terms", a, b, want)
+	_ = bidT
+	// the extra reservation of a modified how-many bid, described on the path of that bid type from the message handler
+	// (wherever the arithmetic is written): ceil(new) − ceil(old), as a difference of Decs or of Ints
+	{
+		mod := ms["ModifyBid"]
+		storedMany := func(x *Explorer, fr *Frame, v ssa.Value) AV {
+			if isNamed(v.Type(), typesPath, "BidType") {
+				if t := x.TM.Of(fr, v); isField(t, "Type") && fromColl(t, "Bid") {
+					return Int(3)
+				}
 			}
-			// new term from the message, old term from the stored bid
-			if ok && !(containsFieldOfParam(inner.Args[0], "Coin") && containsFieldOfParam(inner.Args[0], "Price") && fromColl(inner.Args[1], "Bid") && !containsFieldOfParam(inner.Args[1], "Price")) {
-				ok, why = false, "the difference is not (message terms) − (stored bid terms): "+inner.String()
+			return Unknown
+		}
+		var res []TransferInst
+		for _, ti := range transfersUnder(w, tm, mod, "Msg.ModifyBid", storedMany) {
+			if ti.Method == "SendCoins" {
+				res = append(res, ti)
 			}
 		}
-		r.Check(ok, "RD-SIB", construct, w.instrPos(e.in), "the charged difference is ceil(new amount×new price) − ceil(old amount×old price) with the conversion's own operators", why)
+		construct := "ModifyBid:difference-of-ceilings"
+		ok, why := distinctSites(res) == 1, fmt.Sprintf("%d reservation transfer sites for a how-many bid", distinctSites(res))
+		where := w.pos(mod.Pos())
+		for ri := 0; ok && ri < len(res); ri++ {
+			where = w.instrPos(res[ri].Site)
+			amt := innerAmount(res[ri].Amount)
+			var newT, oldT *Term
+			switch {
+			case amt.Op == "call" && mathName(amt) == "LegacyDec.TruncateInt" && len(amt.Args) == 1 && amt.Args[0].Op == "call" && mathName(amt.Args[0]) == "LegacyDec.Sub" && len(amt.Args[0].Args) == 2:
+				newT, oldT = amt.Args[0].Args[0], amt.Args[0].Args[1]
+			case amt.Op == "call" && mathName(amt) == "Int.Sub" && len(amt.Args) == 2:
+				unwrap := func(t *Term) *Term {
+					if t.Op == "call" && mathName(t) == "LegacyDec.TruncateInt" && len(t.Args) == 1 {
+						return t.Args[0]
+					}
+					return t
+				}
+				newT, oldT = unwrap(amt.Args[0]), unwrap(amt.Args[1])
+			default:
+				ok, why = false, "the charged amount is not a difference of two conversions: "+skeleton(amt)
+			}
+			if ok {
+				a, b := skeleton(newT), skeleton(oldT)
+				want := strip(convPaying)
+				if a != want || b != want {
+					ok, why = false, fmt.Sprintf("new term %s / old term %s differ from the reservation conversion %s: the sum of charged differences no longer equals the ceiling of the final terms", a, b, want)
+				}
+				// new term from the message, old term from the stored bid
+				if ok && !(containsFieldOfParam(newT, "Coin") && containsFieldOfParam(newT, "Price") && fromColl(oldT, "Bid") && !containsFieldOfParam(oldT, "Price")) {
+					ok, why = false, "the difference is not (message terms) − (stored bid terms): "+amt.String()
+				}
+			}
+		}
+		r.Check(ok, "RD-SIB", construct, where, "the charged difference is ceil(new amount×new price) − ceil(old amount×old price) with the conversion's own operators", why)
 	}
-	_ = ms
 
 	// ---------------------------------------------------------------- UNI-PRICE / INCL-GUARD
 	acc := accumulationSites(w, tree)
@@ -245,20 +363,28 @@ func checkC04(w *World, r *Report) {
 				bad = append(bad, fmt.Sprintf("a %s (%s) uses no price", role, skeleton(e)))
 			}
 		}
-		// the published match price is the parameter
-		pubOK := false
+		// the published match price is the parameter: the MatchPrice of every result the routine returns (wherever the
+		// result record is built)
+		pubOK, nRes := true, 0
 		for _, b := range fn.Blocks {
-			for _, in := range b.Instrs {
-				st, ok := in.(*ssa.Store)
-				if !ok {
-					continue
+			ret, ok := b.Instrs[len(b.Instrs)-1].(*ssa.Return)
+			if !ok || len(ret.Results) == 0 {
+				continue
+			}
+			rt := tm.OperandAt(fr, ret, ret.Results[0])
+			for _, alt := range rt.Alts() {
+				if alt.Op == "const" {
+					continue // nil result
 				}
-				if fa, ok := st.Addr.(*ssa.FieldAddr); ok && structOf(fa.X.Type()) != nil && structOf(fa.X.Type()).Field(fa.Field).Name() == "MatchPrice" {
-					vt := tm.Of(fr, st.Val)
-					pubOK = vt.Op == "param" && vt.Name == priceParam
+				nRes++
+				for _, pt := range recordField(alt, "MatchPrice", false).Alts() {
+					if !(pt.Op == "param" && pt.Name == priceParam) {
+						pubOK = false
+					}
 				}
 			}
 		}
+		pubOK = pubOK && nRes > 0
 		if !pubOK {
 			bad = append(bad, "the result's MatchPrice is not the match-price parameter")
 		}
